@@ -16,7 +16,8 @@ EXPLANATION = (
     '_dual_bootstrap return min(max(combined, corrected single-factor variances), two-factor variance); (AXIS) the tests '
     'average over axis 0 (resamples) and trailing axes so the model axis survives, pairwise matrices are filled '
     'symmetrically with unit diagonal; (MEANS) get_means uses NaN-aware averaging. Coincidence with textbook t statistics, '
-    'p in [0,1] and monotonicity are NOT decided.')
+    'p in [0,1] and monotonicity are NOT decided.'
+    ' Also: (MODEL-AXIS) no constant index on the model axis decides for all models (means permute with the models, NaN-aware per model); (UNIFORM) decided on copy chains, not on variable names.')
 ASSUMPTIONS = ['evaluations have axes (resample, model, ...) as documented', 'scipy.stats.t.cdf semantics not modelled']
 FLOOR = 55
 RULE_FLOORS = {'SIB': 9, 'FWD': 10, 'UNIFORM': 9, 'CLAMP': 4}
